@@ -132,6 +132,9 @@ pub enum CompilationError {
     },
     InvalidAutoLocation,
     AutoSpecializationWithoutCall,
+    AutoSpecializationWithoutArgument {
+        index: usize,
+    },
     BadEscapeSequence {
         sequence: String,
     },
@@ -356,6 +359,7 @@ impl Resolve for CompilationError {
             NotAFunction { type_ },
             InvalidAutoLocation {},
             AutoSpecializationWithoutCall {},
+            AutoSpecializationWithoutArgument { index },
             BadEscapeSequence { sequence },
             InvalidNumberLiteral { literal },
             SpecializationOfType { name, type_ },
@@ -497,6 +501,9 @@ pub enum ResolvedCompilationError {
     },
     InvalidAutoLocation,
     AutoSpecializationWithoutCall,
+    AutoSpecializationWithoutArgument {
+        index: usize,
+    },
     BadEscapeSequence {
         sequence: String,
     },
@@ -720,6 +727,12 @@ impl Display for ResolvedCompilationError {
                 write!(
                     f,
                     "overloads specialized with auto \"$\" mut be called immediately"
+                )
+            }
+            Self::AutoSpecializationWithoutArgument { index } => {
+                write!(
+                    f,
+                    "the auto type \"$\" at position {index} has no matching argument in the call"
                 )
             }
             Self::BadEscapeSequence { sequence } => {
